@@ -238,6 +238,29 @@ class InlinePass(ir.passes.InPlacePass):
                     output.name = _make_unique_name(
                         output_name, new_call_stack, self._used_value_names
                     )
+            # Values declared by the subgraphs of the node (formal inputs and initializers) must be
+            # made unique as well: a subgraph input that keeps a name visible at the call site
+            # would otherwise capture references to the outer value of the same name.
+            declared: list[ir.Value] = []
+            for attr in node.attributes.values():
+                if attr.is_ref():
+                    continue
+                if attr.type == ir.AttributeType.GRAPH:
+                    subgraphs = [attr.as_graph()]
+                elif attr.type == ir.AttributeType.GRAPHS:
+                    subgraphs = list(attr.as_graphs())
+                else:
+                    continue
+                for subgraph in subgraphs:
+                    declared.extend(subgraph.inputs)
+                    declared.extend(subgraph.initializers.values())
+            renamed: set[int] = set()
+            for value in declared:
+                if value.name and id(value) not in renamed:
+                    renamed.add(id(value))
+                    value.name = _make_unique_name(
+                        value.name, new_call_stack, self._used_value_names
+                    )
             # Update context in case the new node is itself a call node that will be inlined.
             self._node_context[node] = new_call_stack
 
